@@ -354,7 +354,11 @@ func genSpec(r *hx.Rand) *Spec {
 			ds := DirSpec{Name: fmt.Sprintf("d%d", d)}
 			for a, m := 0, r.Range(0, 2); a < m; a++ {
 				ds.Args = append(ds.Args, ArgSpec{Name: fmt.Sprintf("x%d", a), Type: wrap(r, g.inputBase(""), r.Chance(1, 4))})
+				if r.Chance(1, 2) {
+					ds.Defaults = append(ds.Defaults, fmt.Sprintf("x%d", a))
+				}
 			}
+			ds.Filter = r.Chance(1, 2)
 			g.spec.Directives = append(g.spec.Directives, ds)
 		}
 	}
@@ -824,11 +828,18 @@ func (g *docGen) fieldSel(p *TypeSpec, f *FieldSpec, depth int) *Sel {
 }
 
 func (g *docGen) directive() string {
-	if len(g.spec.Directives) > 0 && g.r.Chance(1, 8) {
+	if len(g.spec.Directives) > 0 && g.r.Chance(1, 5) {
 		d := hx.Pick(g.r, g.spec.Directives)
 		var args []string
 		for _, a := range d.Args {
-			if strings.HasSuffix(a.Type, "!") || g.r.Chance(2, 3) {
+			if bt := g.spec.find(baseName(a.Type)); bt != nil && !subset(bt.Req, g.G) {
+				continue // the argument's type is not available with the features the document is written for
+			}
+			hasDefault := false
+			for _, dn := range d.Defaults {
+				hasDefault = hasDefault || dn == a.Name
+			}
+			if (strings.HasSuffix(a.Type, "!") && !hasDefault) || g.r.Chance(1, 2) {
 				args = append(args, a.Name+": "+g.literal(parseType(a.Type), 0))
 			}
 		}
